@@ -27,6 +27,8 @@ run_directed = directed.run
 
 
 def cases(tier, rng):
+    for c in directed.odd_capture_callables_cases():
+        yield "directed-odd-capture-callables", c
     for c in directed.integrator_snapshot_without_postcondition_cases():
         yield "directed-integrator-snapshot-without-postcondition", c
     for t, c in _C19.cases(tier, rng):
